@@ -436,6 +436,17 @@ def plss(case):
     a = case["args"]
     try:
         d = plss_make(a)
+        post = a.get("post")
+        if post == "parse_tracts":
+            d.parse_tracts()
+        elif post == "parse_tracts_twice":
+            d.parse_tracts(clean_qq=True)
+            d.parse_tracts()
+        elif post == "reparse":
+            d.parse()
+        elif post == "tract_parse":
+            for t in d.tracts:
+                t.parse()
         return plss_project(d, a)
     except Exception as e:  # noqa
         o = dict(EMPTY_OBS)
@@ -1431,22 +1442,24 @@ def c08(case):
     old = (MasterConfig.default_ns, MasterConfig.default_ew)
     try:
         cfg_parts = ["ocr_scrub"] if a["ocr"] else []
-        kw = {}
-        if src == "config":
-            cfg_parts += [dns, dew]
-        elif src == "masterconfig":
-            MasterConfig.default_ns, MasterConfig.default_ew = dns, dew
+        kw, fkw = {}, {}
+        for axis, val, mcattr, key in (("ns", dns, "default_ns", "default_ns"), ("ew", dew, "default_ew", "default_ew")):
+            sx = src[axis]
+            if sx == "config":
+                cfg_parts.append(val)
+                fkw[key] = val
+            elif sx == "masterconfig":
+                setattr(MasterConfig, mcattr, val)
+            elif sx == "keyword":
+                kw[key] = val
+                fkw[key] = val
         cfg = ",".join(cfg_parts) or None
-        if src == "keyword":
+        if kw:
             d = pytrs.PLSSDesc(text, config=cfg, wait_to_parse=True)
-            d.parse(default_ns=dns, default_ew=dew)
-            found = pytrs.find_twprge(text, default_ns=dns, default_ew=dew, preprocess=True, ocr_scrub=a["ocr"])
+            d.parse(**kw)
         else:
             d = pytrs.PLSSDesc(text, config=cfg)
-            if src == "config":
-                found = pytrs.find_twprge(text, default_ns=dns, default_ew=dew, preprocess=True, ocr_scrub=a["ocr"])
-            else:
-                found = pytrs.find_twprge(text, preprocess=True, ocr_scrub=a["ocr"])
+        found = pytrs.find_twprge(text, preprocess=True, ocr_scrub=a["ocr"], **fkw)
         pp = [_tr_tuple(m) for m in _TR_CANON.finditer(d.pp_desc)]
         # every Twp/Rge of the preprocessed text is in the canonical spelling: none is left in another spelling
         leftovers = pytrs.find_twprge(_TR_CANON.sub(" ", d.pp_desc))
@@ -1474,3 +1487,42 @@ def c08(case):
         return _exc(e)
     finally:
         MasterConfig.default_ns, MasterConfig.default_ew = old
+
+
+# ---------------------------------------------------------------------------
+# conformance with the marker-walk model (PlssWalk.tla)
+
+def plss_walk(case):
+    from . import render as R
+    a = case["args"]
+    try:
+        d = plss_make(a)
+    except Exception as e:  # noqa
+        return {"exc": type(e).__name__, "lay": "?", "tracts": [], "unused": [], "eflags": []}
+    tr_by_short = {R.tr_short(v): v for v in (1, 2, 3, 4)}
+    num2tok = {int(k): v for k, v in a["num2tok"].items()}
+    marks = a.get("markers") or []
+    tracts = []
+    for t in d.tracts:
+        sec = num2tok.get(int(t.sec), -1) if isinstance(t.sec, str) and t.sec.isdigit() else -1
+        tracts.append({"tr": tr_by_short.get(t.twprge, -1), "sec": sec,
+                       "marks": [m for m in marks if R.marker(m) in (t.desc or "")]})
+    unused, kinds = [], []
+    for f in d.e_flags:
+        if not isinstance(f, str):
+            kinds.append("?")
+        elif f.startswith("unused_desc<"):
+            kinds.append("unused_desc")
+            unused.append([m for m in marks if R.marker(m) in f])
+        elif f.startswith("twprge_error<"):
+            kinds.append("twprge_error_item")
+        elif f.startswith("sec_error<"):
+            kinds.append("sec_error_item")
+        elif f.startswith("unused_twprge<"):
+            kinds.append("unused_twprge")
+        elif f.startswith("unused_sec<"):
+            kinds.append("unused_sec")
+        else:
+            kinds.append(f)
+    return {"exc": "none", "lay": d.current_layout, "tracts": tracts, "unused": unused, "eflags": kinds,
+            "raw": [(t.trs, (t.desc or "")[:50]) for t in d.tracts][:8], "raw_e": [str(f)[:50] for f in d.e_flags][:8]}
